@@ -616,6 +616,12 @@ pub fn run(tier: Tier, replay: Option<String>) -> i32 {
             jobs.push(e3::job(format!("C11/scale/{}/{}topics/{}subs/len{}", ty.name(), nt, ns, tl), json!({"scenario":"scale","type":ty.name(),"topics":nt,"subs":ns,"topic_len":tl}), if tl <= 300 { 1 } else { 0 }, 2_000, move || scale_scenario(ty, nt, ns, tl)));
         }
     }
+    // the same scenarios with peers that announce an Identity of length 0 / no Identity (every 50th job): the oracle
+    // never looks at the peers' identities, and every connection must still be kept apart
+    let anon: Vec<zvcore::explore::Job> = jobs.iter().filter(|j| !j.name.contains("reconnect") && !j.name.contains("scale")).step_by(50).flat_map(|j| [e3::anon_copy(j, 1), e3::anon_copy(j, 2)]).collect();
+    ck.cov("scenarios_repeated_with_anonymous_peers", anon.len() as u64);
+    let mut jobs = jobs;
+    jobs.extend(anon);
     e3::run_jobs_into(&mut ck, jobs, false);
     let ex = ck.coverage.get("e3_executions").and_then(|v| v.as_u64()).unwrap_or(0);
     ck.cov("states", n_hist);
